@@ -135,14 +135,14 @@ def run(ck):
     systematic(ck, b, ck.n(14, 120), ck.n(2, 1))
     real_hooks(ck, b, ck.n(40, 600))
     random_stops(ck, b, ck.n(40, 1500))
-    # real `jug execute` processes on a file store, real SIGTERM / SIGINT (the only tier that goes through ExecuteCommand.run,
-    # i.e. the SIGTERM handler registration and --no-check-environment)
-    from . import execproc
-    execproc.signal_runs(ck, ck.n(4, 40))
     for sc, res, _ in b.items[:400]:
         if len(ck.samples) < 3 and any(e[0] == 'EInterrupt' for e in res.trace):
             ck.sample({'program': sc['program'], 'backend': sc['backend'], 'events': [X.ev_show(e) for e in res.trace[:40]]})
     b.flush()
+    # real `jug execute` processes on a file store, real SIGTERM / SIGINT (the only tier that goes through ExecuteCommand.run,
+    # i.e. the SIGTERM handler registration and --no-check-environment)
+    from . import execproc
+    execproc.signal_runs(ck, ck.n(4, 40))
 
 
 def replay(obj):
